@@ -15,6 +15,8 @@ pub fn run(cx: &mut Ctx) {
         units::position_comparisons(cx, &format!("C08.B1@{}", label), &f);
     }
     token_payloads(cx);
+    // the paren-transparency rule reads the grammar: python.rs must be what that grammar generates
+    crate::g1::run(cx, "C08.G1");
     paren_transparency(cx);
     lr::skip_set(cx, "C08.W1");
     lr::indentation_counters(cx, "C08.W2");
